@@ -89,14 +89,26 @@ LenOctets(n, lf) ==
 (*  omit  : DEFAULT components equal to their default are left out         *)
 (*  perm  : 0 = declared order of SET components, 1 = reversed (BER only)  *)
 (*  canon : "ber" | "cer" | "der" (tag used to sort an untagged CHOICE)    *)
+(*  dev   : set of NAMED DEVIATIONS of the implementation from X.690 that  *)
+(*          are confirmed defects recorded in known_findings.json.  With   *)
+(*          dev = {} (always, in every property) Enc is the X.690 encoder; *)
+(*          the trace acceptor uses dev # {} only to EXPLAIN a rejected    *)
+(*          event exactly (so that nothing else hides behind a finding):   *)
+(*    "F1"  explicit tag around a type that has no constructed form, in    *)
+(*          indefinite mode: definite length but end-of-octets appended    *)
+(*    "F4"  base-10 REAL written without the decimal mark of NR3           *)
+(*    "F26" CER/DER: an OPTIONAL component holding a constructed value     *)
+(*          with empty contents is left out                                *)
+(*    "F28" CER BIT STRING: 1000 data octets (1001 contents octets) per    *)
+(*          fragment / primitive up to 1001 contents octets (9.2 says 1000)*)
 (***************************************************************************)
 DERMode == [def |-> <<TRUE>>, lf |-> <<0>>, chunk |-> 0, nest |-> FALSE, tru |-> 255,
-            sorted |-> TRUE, omit |-> TRUE, perm |-> 0, canon |-> "der", bitchunk |-> "x690"]
+            sorted |-> TRUE, omit |-> TRUE, perm |-> 0, canon |-> "der", bitchunk |-> "x690", dev |-> {}]
 CERMode == [def |-> <<FALSE>>, lf |-> <<0>>, chunk |-> 1000, nest |-> FALSE, tru |-> 255,
-            sorted |-> TRUE, omit |-> TRUE, perm |-> 0, canon |-> "cer", bitchunk |-> "x690"]
+            sorted |-> TRUE, omit |-> TRUE, perm |-> 0, canon |-> "cer", bitchunk |-> "x690", dev |-> {}]
 LibBER(def, chunk) ==
            [def |-> <<def>>, lf |-> <<0>>, chunk |-> chunk, nest |-> FALSE, tru |-> 1,
-            sorted |-> FALSE, omit |-> TRUE, perm |-> 0, canon |-> "ber", bitchunk |-> "data"]
+            sorted |-> FALSE, omit |-> TRUE, perm |-> 0, canon |-> "ber", bitchunk |-> "data", dev |-> {}]
 
 Cyc(s, d) == s[(d % Len(s)) + 1]
 
@@ -137,7 +149,7 @@ RealNorm(v) ==
   ELSE LET n == RealNormFin(AbsInt(v.m), v.b, v.e)
        IN [rk |-> "fin", m |-> IF v.m < 0 THEN 0 - n.m ELSE n.m, b |-> v.b, e |-> n.e]
 
-RealContent(v0) ==
+RealContent(md, v0) ==
   LET v == RealNorm(v0) IN
   IF v.rk = "zero" THEN <<>>
   ELSE IF v.rk = "pinf" THEN <<64>>
@@ -149,7 +161,7 @@ RealContent(v0) ==
      IN IF Len(eo) <= 3 THEN <<128 + sign + (Len(eo) - 1)>> \o eo \o mant
         ELSE <<128 + sign + 3, Len(eo)>> \o eo \o mant
   ELSE \* base 10: ISO 6093 NR3, canonical punctuation of X.690 11.3.2
-     <<3>> \o (IF v.m < 0 THEN <<45>> ELSE <<>>) \o DecDigits(AbsInt(v.m)) \o <<46, 69>>
+     <<3>> \o (IF v.m < 0 THEN <<45>> ELSE <<>>) \o DecDigits(AbsInt(v.m)) \o (IF "F4" \in md.dev THEN <<69>> ELSE <<46, 69>>)
            \o (IF v.e = 0 THEN <<43, 48>>
                ELSE IF v.e < 0 THEN <<45>> \o DecDigits(0 - v.e) ELSE DecDigits(v.e))
 
@@ -167,7 +179,7 @@ OctetFragments(md, d, s) ==
 (* fragments of a BIT STRING: every fragment but the last holds whole      *)
 (* octets.  "x690": k content octets per fragment (k-1 data octets);       *)
 (* "data": k data octets per fragment                                      *)
-BitFragData(md) == IF md.bitchunk = "x690" THEN md.chunk - 1 ELSE md.chunk
+BitFragData(md) == IF md.bitchunk = "x690" /\ "F28" \notin md.dev THEN md.chunk - 1 ELSE md.chunk
 BitFragments(md, d, bits) ==
   LET packed == BitsPacked(bits)
       k == BitFragData(md)
@@ -251,13 +263,17 @@ OuterTag(md, T, v) ==
   ELSE IF md.canon = "cer" THEN StaticMinTag(T)
   ELSE OuterTag(md, T.alts[v.alt].t, v.v)
 
+EmptyConstructed(T, v) ==
+  \/ (T.k \in {"seqof", "setof"} /\ Len(v.es) = 0)
+  \/ (T.k \in {"seq", "set"} /\ \A i \in 1..Len(T.comps) : ~v.cs[i].p)
+
 (* Body: [cons |-> contents are constructed, octs |-> contents octets] of the base type *)
 Body(md, d, T, v) ==
   CASE T.k = "bool" -> [cons |-> FALSE, octs |-> <<IF v.b THEN md.tru ELSE 0>>]
     [] T.k \in IntKinds -> [cons |-> FALSE, octs |-> TwosComplement(v)]
     [] T.k = "null" -> [cons |-> FALSE, octs |-> <<>>]
     [] T.k = "oid" -> [cons |-> FALSE, octs |-> OidContent(v.arcs)]
-    [] T.k = "real" -> [cons |-> FALSE, octs |-> RealContent(v)]
+    [] T.k = "real" -> [cons |-> FALSE, octs |-> RealContent(md, v)]
     [] T.k \in OctetStringKinds ->
          IF md.chunk > 0 /\ Len(v.o) > md.chunk
          THEN [cons |-> TRUE, octs |-> NestOnce(md, d, 4, OctetFragments(md, d, v.o))]
@@ -278,6 +294,7 @@ Body(md, d, T, v) ==
          LET n == Len(T.comps)
              emitted(i) ==
                IF ~v.cs[i].p THEN FALSE
+               ELSE IF "F26" \in md.dev /\ T.comps[i].mode = "opt" /\ EmptyConstructed(T.comps[i].t, v.cs[i].v) THEN FALSE
                ELSE IF T.comps[i].mode = "def" /\ md.omit
                     THEN Norm(T.comps[i].t, v.cs[i].v) # Norm(T.comps[i].t, T.comps[i].dflt)
                     ELSE TRUE
@@ -292,18 +309,24 @@ Body(md, d, T, v) ==
              octs |-> Flat([j \in 1..Len(order) |-> Enc(md, d + 1, T.comps[order[j]].t, v.cs[order[j]].v)])]
 
 (* wrap the body in the type's tags, innermost first *)
-RECURSIVE WrapTags(_, _, _, _, _)
-WrapTags(md, d, ts, i, acc) ==   \* acc = encoding built so far for tags i+1..Len(ts); wrap with tag i..1
-  IF i = 0 THEN acc ELSE WrapTags(md, d, ts, i - 1, Wrap(md, d, ts[i], TRUE, acc))
+NoConstructedForm == {"bool", "int", "enum", "null", "oid", "real"}
+StrayWrap(md, d, tg, content) ==      \* deviation F1
+  IdOctets(tg.c, 1, tg.n) \o LenOctets(Len(content), Cyc(md.lf, d)) \o content \o <<0, 0>>
+RECURSIVE WrapTags(_, _, _, _, _, _)
+WrapTags(md, d, ts, i, acc, stray) ==   \* acc = encoding built so far for tags i+1..Len(ts); wrap with tag i..1
+  IF i = 0 THEN acc
+  ELSE WrapTags(md, d, ts, i - 1,
+                IF stray /\ ~Cyc(md.def, d) THEN StrayWrap(md, d, ts[i], acc) ELSE Wrap(md, d, ts[i], TRUE, acc), stray)
 
 Enc(md, d, T, v) ==
   LET ts == TagsOf(T)
       bd == Body(md, d, T, v)
   IN IF Len(ts) = 0 THEN bd.octs
      ELSE IF T.k = "choice" \/ (T.k = "any" /\ ts[Len(ts)].f = 1)
-          THEN WrapTags(md, d, ts, Len(ts), bd.octs)            \* every tag is an explicit wrapper
+          THEN WrapTags(md, d, ts, Len(ts), bd.octs, FALSE)     \* every tag is an explicit wrapper
           ELSE WrapTags(md, d, ts, Len(ts) - 1,
-                        Wrap(md, d, ts[Len(ts)], bd.cons \/ ts[Len(ts)].f = 1, bd.octs))
+                        Wrap(md, d, ts[Len(ts)], bd.cons \/ ts[Len(ts)].f = 1, bd.octs),
+                        "F1" \in md.dev /\ T.k \in NoConstructedForm)
 
 DER(T, v) == Enc(DERMode, 0, T, v)
 CER(T, v) == Enc(CERMode, 0, T, v)
